@@ -165,6 +165,29 @@ fn check_compress(run: &Arc<Run>, t: &Table, x: &[u8], lc: &mut LocalClasses) {
                 }
             }
         }
+        // the convenience wrappers are the same functions
+        if t.h.compress_into_vec(x) != a {
+            return Err(("wrapper:compress_into_vec".into(), "compress_into_vec differs from compress".into()));
+        }
+        match t.h.decompress_into_vec(&a) {
+            Ok(d) if d == x => {}
+            other => return Err(("wrapper:decompress_into_vec".into(), format!("decompress_into_vec(compress(x)) = {:?}", other.map(|d| vp_core::hex_short(&d)).map_err(|_| "InvalidInput"))))
+        }
+        if t.name == "built-in" {
+            if libtw2_huffman::compress(x) != a {
+                return Err(("wrapper:compress".into(), "compress() differs from the built-in table's compress".into()));
+            }
+            let mut w: Vec<u8> = Vec::with_capacity(x.len() * 4 + 16);
+            match libtw2_huffman::compress_into(x, &mut w) {
+                Ok(d) if d == &a[..] => {}
+                _ => return Err(("wrapper:compress_into".into(), "compress_into differs".into())),
+            }
+            let mut w2: Vec<u8> = Vec::with_capacity(x.len() + 8);
+            match libtw2_huffman::decompress_into(&a, &mut w2) {
+                Ok(d) if d == x => {}
+                _ => return Err(("wrapper:decompress_into".into(), "decompress_into differs".into())),
+            }
+        }
         t.r.compress(x, &mut c).map_err(|_| ("reference-capacity".to_string(), "reference compress fails".to_string()))?;
         if b != c {
             return Err(("compress-bug-differs-from-reference".into(), format!("compress_bug {} vs reference {}", vp_core::hex_short(&b), vp_core::hex_short(&c))));
@@ -234,20 +257,31 @@ fn check_decompress(run: &Arc<Run>, t: &Table, y: &[u8], caps: std::ops::RangeIn
             return;
         }
     }
-    // into_vec: capacity 8 x input
-    if t.name == "built-in" {
-        let v = vp_core::catch(|| libtw2_huffman::decompress(y).ok());
-        match v {
+    // the Vec-returning wrapper: documented capacity 8 x input (one output byte per input bit),
+    // so it must agree with the explicit-buffer decoder whenever that output fits
+    {
+        let v = vp_core::catch(|| t.h.decompress_into_vec(y).ok());
+        let v = match v {
             Err(p) => {
                 viol(run, t, &vp_core::panic_sig(&p), p, y, json!("decompress_into_vec"));
                 return;
             }
-            Ok(v) => {
-                if let (Some(v), Ok(o)) = (&v, &ours) {
-                    if v != o {
-                        viol(run, t, "into-vec-differs", "decompress() differs from decompress_into".into(), y, json!(null));
-                        return;
-                    }
+            Ok(v) => v,
+        };
+        let expect: Option<&Vec<u8>> = match &ours {
+            Ok(o) if o.len() <= 8 * y.len() => Some(o),
+            _ => None,
+        };
+        if v.as_ref() != expect {
+            viol(run, t, "into-vec-differs", format!("decompress_into_vec gives {:?} but decompress into a buffer gives {:?}", v.as_ref().map(|d| vp_core::hex_short(d)), ours.as_ref().map(|d| vp_core::hex_short(d))), y, json!(null));
+            return;
+        }
+        if t.name == "built-in" {
+            match vp_core::catch(|| libtw2_huffman::decompress(y).ok()) {
+                Ok(w) if w == v => {}
+                _ => {
+                    viol(run, t, "into-vec-differs", "decompress() differs from the built-in table's decompress_into_vec".into(), y, json!(null));
+                    return;
                 }
             }
         }
@@ -393,7 +427,7 @@ fn main() {
     run.assume("frequency vectors whose code depth exceeds the 24-bit representation make the table constructor refuse (panic); they are counted as 'table-rejected' and skipped - table construction limits are not part of the statement");
     run.assume("content classes: zeros, 'abc' repeated, byte counter, fixed LCG stream (a named constant member of the alphabet)");
     run.finish(
-        "per code table (built-in, shipped frequency file, 23 synthetic frequency vectors incl. two whose EOF code word is all zeros, so that input ending between two symbols decodes to EOF): all compressor inputs of length <=2, every length 0..4096 x 4 content classes, every byte value repeated 1..64; all decompressor inputs of length <=2 (<=3 thorough) x every output capacity 0..8n+2 between canaries, every prefix / one-byte extension / byte substitution of valid streams; oracle: round trip for both output forms, exact predicted lengths, byte identity with the C++ reference, equality with the reference whenever it decodes, capacity errors exactly when the output does not fit, no write past the buffer, termination (watchdog)",
+        "per code table (built-in, shipped frequency file, 23 synthetic frequency vectors incl. two whose EOF code word is all zeros, so that input ending between two symbols decodes to EOF): all compressor inputs of length <=2, every length 0..4096 x 4 content classes, every byte value repeated 1..64; all decompressor inputs of length <=2 (<=3 thorough) x every output capacity 0..8n+2 between canaries, every prefix / one-byte extension / byte substitution of valid streams; oracle: round trip for both output forms, the convenience wrappers (compress, compress_into, compress_into_vec, decompress, decompress_into, decompress_into_vec) agree with the buffer API, exact predicted lengths, byte identity with the C++ reference, equality with the reference whenever it decodes, capacity errors exactly when the output does not fit, no write past the buffer, termination (watchdog)",
         true,
     );
 }
